@@ -262,9 +262,7 @@ Proof.
     + rewrite H. destruct n; reflexivity.
     + rewrite H. destruct n; cbn; rewrite app_nil_r; reflexivity.
   - destruct S as (-> & Hne & Hfree). unfold pipe_free in Hfree.
-    repeat split; auto.
-    + intros _. right. lia.
-    + intros T. rewrite T in Hne. destruct kw; cbn in Hne; congruence.
+    repeat split; auto; try (intros; right; lia).
   - destruct S.
 Qed.
 
@@ -332,4 +330,404 @@ Proof.
   apply (fair_run rounds cap data kw kr); auto.
   - apply chan_init_inv.
   - unfold measure, chan_init; cbn. lia.
+Qed.
+
+(* ====================================================================== *)
+(* the three streams of a child do not interfere                            *)
+
+Lemma run3_independent : forall (sch : list (fdn * step)) (s : stdio3),
+  run3 sch s = mk3 (run (proj FIn sch) (s_in s)) (run (proj FOut sch) (s_out s))
+                   (run (proj FErr sch) (s_err s)).
+Proof.
+  induction sch as [|[f st] r IH]; intros s.
+  - destruct s; reflexivity.
+  - cbn [run3]. rewrite IH. unfold proj. cbn [filter fst snd].
+    destruct f; cbn [step3 fdn_eqb fst snd s_in s_out s_err map run]; reflexivity.
+Qed.
+
+Definition chan_complete (data : list byte) (c : chan) : Prop :=
+  cgot c ++ pq (cpipe c) ++ ctodo c = data /\
+  (ceof c = true -> wclosed (cpipe c) = true /\ pq (cpipe c) = [] /\ cgot c ++ ctodo c = data) /\
+  (ceof c = true -> ctodo c = [] -> cgot c = data).
+
+Lemma stdio3_complete : forall (cap : nat) (din dout derr : list byte) (sch : list (fdn * step)),
+  let s := run3 sch (mk3 (chan_init cap din) (chan_init cap dout) (chan_init cap derr)) in
+  chan_complete din (s_in s) /\ chan_complete dout (s_out s) /\ chan_complete derr (s_err s).
+Proof.
+  intros cap din dout derr sch s. subst s. rewrite run3_independent.
+  cbn [s_in s_out s_err]. unfold chan_complete.
+  pose proof (stdio_complete cap din (proj FIn sch)) as (A1 & _ & A2 & A3).
+  pose proof (stdio_complete cap dout (proj FOut sch)) as (B1 & _ & B2 & B3).
+  pose proof (stdio_complete cap derr (proj FErr sch)) as (C1 & _ & C2 & C3).
+  repeat split; auto; try (apply A2; assumption); try (apply B2; assumption);
+    try (apply C2; assumption).
+Qed.
+
+(* ====================================================================== *)
+(* the echo system                                                          *)
+
+Definition echo_inv (capa capb : nat) (data : list byte) (e : echo) : Prop :=
+  pcap (ea e) = capa /\ pcap (eb e) = capb /\
+  egot e ++ pq (eb e) ++ ebuf e ++ pq (ea e) ++ etodo e = data /\
+  length (pq (ea e)) <= capa /\ length (pq (eb e)) <= capb /\
+  rclosed (ea e) = false /\ rclosed (eb e) = false /\
+  (ein_eof e = true -> wclosed (ea e) = true /\ pq (ea e) = []) /\
+  (wclosed (eb e) = true -> ein_eof e = true /\ ebuf e = []) /\
+  (eeof e = true -> wclosed (eb e) = true /\ pq (eb e) = []).
+
+Lemma echo_init_inv capa capb data : echo_inv capa capb data (echo_init capa capb data).
+Proof.
+  unfold echo_inv, echo_init; cbn. repeat split; auto; try lia; discriminate.
+Qed.
+
+Lemma eof_flag_cases (old : bool) (k : nat) (bs : list byte) :
+  (old || (negb (k =? 0) && is_nil bs)) = true -> old = true \/ (0 < k /\ bs = []).
+Proof.
+  intros H. apply orb_true_iff in H. destruct H as [H|H]; auto.
+  apply andb_true_iff in H. destruct H as [K N]. right.
+  apply negb_true_iff, Nat.eqb_neq in K. destruct bs; [split; [lia|auto]|discriminate].
+Qed.
+
+Lemma echo_step_inv capa capb data e s :
+  echo_inv capa capb data e -> echo_inv capa capb data (echo_step e s).
+Proof.
+  intros Hinv.
+  pose proof Hinv as (Hca & Hcb & Hd & Hla & Hlb & Hra & Hrb & Hin & Hbw & Hee).
+  destruct s as [k| |k|k| |k]; unfold echo_step.
+  - (* EWrite *)
+    destruct (wclosed (ea e)) eqn:W; [exact Hinv|].
+    destruct (pipe_write (ea e) (firstn k (etodo e))) as [a' r] eqn:E.
+    pose proof (pipe_write_spec _ _ _ _ E Hra) as S.
+    destruct r as [n| |x]; [|exact Hinv|exact Hinv].
+    destruct S as (Hn & Hf & Hq & Hc & Hw & Hr' & _ & _).
+    unfold echo_inv; cbn [ea eb etodo ebuf ein_eof egot eeof].
+    rewrite Hq, Hc, Hw, (firstn_firstn_le _ _ _ Hn).
+    repeat split; auto.
+    + rewrite <- Hd. rewrite <- !app_assoc. rewrite firstn_skipn. reflexivity.
+    + rewrite app_length, firstn_length. unfold pipe_free in Hf. lia.
+    + apply Hin in H. destruct H; congruence.
+    + apply Hin in H. destruct H; congruence.
+    + apply Hbw in H. tauto.
+    + apply Hbw in H. tauto.
+    + apply Hee in H. tauto.
+    + apply Hee in H. tauto.
+  - (* ECloseIn *)
+    unfold echo_inv; cbn [ea eb etodo ebuf ein_eof egot eeof pipe_close_w pq pcap wclosed rclosed].
+    repeat split; auto.
+    + apply Hin in H. tauto.
+    + apply Hbw in H. tauto.
+    + apply Hbw in H. tauto.
+    + apply Hee in H. tauto.
+    + apply Hee in H. tauto.
+  - (* EChildRead *)
+    destruct (wclosed (eb e)) eqn:W; [exact Hinv|].
+    destruct (pipe_read (ea e) k) as [a' r] eqn:E.
+    pose proof (pipe_read_spec _ _ _ _ E) as S.
+    destruct r as [bs|]; [|exact Hinv].
+    destruct S as (Hb & Hq & Hc & Hw & Hr' & Hz).
+    unfold echo_inv; cbn [ea eb etodo ebuf ein_eof egot eeof].
+    rewrite Hq, Hc, Hw, Hr'. repeat split; auto.
+    + rewrite <- Hd. rewrite Hb. rewrite <- !app_assoc.
+      rewrite (app_assoc (firstn k _)). rewrite firstn_skipn. reflexivity.
+    + rewrite skipn_length. lia.
+    + apply eof_flag_cases in H. destruct H as [H|[K N]].
+      * apply Hin in H. tauto.
+      * apply Hz; auto.
+    + apply eof_flag_cases in H. destruct H as [H|[K N]].
+      * apply Hin in H. destruct H as [_ H]. rewrite H. destruct k; reflexivity.
+      * destruct Hz as [Z _]; auto. rewrite Z. destruct k; reflexivity.
+    + congruence.
+    + congruence.
+    + apply Hee in H. destruct H; congruence.
+    + apply Hee in H. tauto.
+  - (* EChildWrite *)
+    destruct (wclosed (eb e)) eqn:W; [exact Hinv|].
+    destruct (pipe_write (eb e) (firstn k (ebuf e))) as [b' r] eqn:E.
+    pose proof (pipe_write_spec _ _ _ _ E Hrb) as S.
+    destruct r as [n| |x]; [|exact Hinv|exact Hinv].
+    destruct S as (Hn & Hf & Hq & Hc & Hw & Hr' & _ & _).
+    unfold echo_inv; cbn [ea eb etodo ebuf ein_eof egot eeof].
+    rewrite Hq, Hc, Hw, (firstn_firstn_le _ _ _ Hn).
+    repeat split; auto.
+    + rewrite <- Hd. rewrite <- !app_assoc. rewrite (app_assoc (firstn n _)).
+      rewrite firstn_skipn. reflexivity.
+    + rewrite app_length, firstn_length. unfold pipe_free in Hf. lia.
+    + apply Hin in H. tauto.
+    + apply Hin in H. tauto.
+    + congruence.
+    + congruence.
+    + apply Hee in H. destruct H; congruence.
+    + apply Hee in H. destruct H; congruence.
+  - (* EChildExit *)
+    destruct (ein_eof e && is_nil (ebuf e)) eqn:G; [|exact Hinv].
+    apply andb_true_iff in G. destruct G as [G1 G2].
+    unfold echo_inv; cbn [ea eb etodo ebuf ein_eof egot eeof pipe_close_w pq pcap wclosed rclosed].
+    repeat split; auto.
+    + apply Hin in H. tauto.
+    + apply Hin in H. tauto.
+    + destruct (ebuf e); [auto|discriminate].
+    + apply Hee in H. tauto.
+  - (* ERead *)
+    destruct (pipe_read (eb e) k) as [b' r] eqn:E.
+    pose proof (pipe_read_spec _ _ _ _ E) as S.
+    destruct r as [bs|]; [|exact Hinv].
+    destruct S as (Hb & Hq & Hc & Hw & Hr' & Hz).
+    unfold echo_inv; cbn [ea eb etodo ebuf ein_eof egot eeof].
+    rewrite Hq, Hc, Hw, Hr'. repeat split; auto.
+    + rewrite <- Hd. rewrite Hb. rewrite <- !app_assoc.
+      rewrite (app_assoc (firstn k _)). rewrite firstn_skipn. reflexivity.
+    + rewrite skipn_length. lia.
+    + apply Hin in H. tauto.
+    + apply Hin in H. tauto.
+    + apply Hbw in H. tauto.
+    + apply Hbw in H. tauto.
+    + apply eof_flag_cases in H. destruct H as [H|[K N]].
+      * apply Hee in H. tauto.
+      * apply Hz; auto.
+    + apply eof_flag_cases in H. destruct H as [H|[K N]].
+      * apply Hee in H. destruct H as [_ H]. rewrite H. destruct k; reflexivity.
+      * destruct Hz as [Z _]; auto. rewrite Z. destruct k; reflexivity.
+Qed.
+
+Lemma erun_inv capa capb data sch :
+  forall e, echo_inv capa capb data e -> echo_inv capa capb data (erun sch e).
+Proof.
+  induction sch as [|s r IH]; intros e H; cbn [erun]; auto.
+  apply IH. apply echo_step_inv. exact H.
+Qed.
+
+Lemma echo_complete : forall (capa capb : nat) (data : list byte) (sch : list estep),
+  let e := erun sch (echo_init capa capb data) in
+  egot e ++ pq (eb e) ++ ebuf e ++ pq (ea e) ++ etodo e = data /\
+  (eeof e = true -> wclosed (ea e) = true /\ egot e ++ etodo e = data) /\
+  (eeof e = true -> etodo e = [] -> egot e = data).
+Proof.
+  intros capa capb data sch e.
+  assert (I : echo_inv capa capb data e) by (apply erun_inv, echo_init_inv).
+  destruct I as (Hca & Hcb & Hd & Hla & Hlb & Hra & Hrb & Hin & Hbw & Hee).
+  assert (G : eeof e = true -> wclosed (ea e) = true /\ egot e ++ etodo e = data).
+  { intros F. apply Hee in F. destruct F as [F1 F2].
+    apply Hbw in F1. destruct F1 as [F3 F4]. apply Hin in F3. destruct F3 as [F5 F6].
+    rewrite F2, F4, F6 in Hd. cbn in Hd. auto. }
+  repeat split; auto; try (apply G; assumption).
+  intros F T. apply G in F. destruct F as [_ F]. rewrite T, app_nil_r in F. exact F.
+Qed.
+
+(* ====================================================================== *)
+(* waiting for the child                                                    *)
+
+Definition winv (hist : list wlabel) (s : wstate) : Prop :=
+  (forall st, wchild s = CZombie st -> In (EnvExit st) hist) /\
+  (forall st, wwait s = WGot st -> In (EnvExit st) hist /\ wchild s = CReaped) /\
+  (wwait s = WPollReady -> is_zombie (wchild s) = true) /\
+  (forall e, wwait s = WFailed e -> In (OsFail e) hist) /\
+  (wwait s = WDone -> wchild s = CReaped \/ exists e, In (OsFail e) hist) /\
+  (wchild s = CReaped -> exists st, In (EnvExit st) hist).
+
+Lemma winit_inv : winv [] winit.
+Proof. unfold winv, winit; cbn. repeat split; intros; try discriminate. Qed.
+
+Ltac wcase H :=
+  repeat match type of H with
+  | context [N.eqb ?a ?b] => destruct (N.eqb_spec a b); subst
+  end; try discriminate H.
+
+Lemma wstep_inv : forall hist s l s',
+  winv hist s -> wstep s l = Some (Ok s') -> winv (hist ++ [l]) s'.
+Proof.
+  intros hist [c w] l s' (I1 & I2 & I3 & I4 & I5 & I6) H.
+  cbn [wchild wwait] in *.
+  destruct l as [st|m| | |st|e|st|e| | ]; destruct c as [|zs|]; destruct w as [| | | | |gs|fe|];
+    try destruct m; cbn in H; wcase H;
+    injection H as <-; unfold winv; cbn [wchild wwait];
+    repeat split; intros; try discriminate;
+    try (match goal with
+         | E : CZombie _ = CZombie _ |- _ => injection E as <-
+         | E : WGot _ = WGot _ |- _ => injection E as <-
+         | E : WFailed _ = WFailed _ |- _ => injection E as <-
+         end);
+    rewrite ?in_app_iff; cbn [In];
+    try (left; apply I1; reflexivity);
+    try (left; apply I2; reflexivity);
+    try (left; apply I4; reflexivity);
+    try (right; left; reflexivity);
+    auto.
+  all: try (destruct (I6 eq_refl) as [x Hx]; exists x; rewrite in_app_iff; auto).
+  all: try (destruct (I2 _ eq_refl) as [Hx _]; eexists; rewrite in_app_iff; left; exact Hx).
+  all: try (eexists; rewrite in_app_iff; left; apply I1; reflexivity).
+  all: try (destruct I5 as [F|[x Hx]]; auto; [discriminate F | right; exists x; rewrite in_app_iff; auto]).
+  all: try (right; eexists; rewrite in_app_iff; left; apply I4; reflexivity).
+  all: try (destruct (I2 _ eq_refl) as [_ F]; discriminate F).
+Qed.
+
+Lemma wrun_inv : forall tr s hist s',
+  winv hist s -> wrun s tr = Some (Ok s') -> winv (hist ++ tr) s'.
+Proof.
+  induction tr as [|l tr IH]; intros s hist s' I H.
+  - cbn in H. injection H as <-. rewrite app_nil_r. exact I.
+  - cbn [wrun] in H. destruct (wstep s l) as [[s1|c]|] eqn:E; try discriminate.
+    + replace (hist ++ l :: tr) with ((hist ++ [l]) ++ tr) by (rewrite <- app_assoc; reflexivity).
+      apply (IH s1); auto. eapply wstep_inv; eauto.
+    + destruct tr; discriminate.
+Qed.
+
+Lemma wdone_stuck : forall l, wstep (mkw CReaped WDone) l = None.
+Proof. destruct l as [st|m| | |st|e|st|e| | ]; try destruct m; reflexivity. Qed.
+
+Lemma wrun_stuck : forall s, (forall l, wstep s l = None) ->
+  forall tr r, wrun s tr = Some r -> tr = [] /\ r = Ok s.
+Proof.
+  intros s H [|l tr] r E.
+  - cbn in E. injection E as <-. auto.
+  - cbn in E. rewrite H in E. discriminate.
+Qed.
+
+Lemma wstep_deliver : forall hist s st r,
+  winv hist s -> wstep s (Deliver st) = Some r ->
+  In (EnvExit st) hist /\ r = Ok (mkw CReaped WDone).
+Proof.
+  intros hist [c w] st r (I1 & I2 & _) H. cbn [wchild wwait] in *.
+  destruct c, w; cbn in H; wcase H; injection H as <-;
+    destruct (I2 _ eq_refl) as [Hx F]; try discriminate F; auto.
+Qed.
+
+Lemma wrun_deliver : forall tr s hist r,
+  winv hist s -> wrun s tr = Some r ->
+  forall pre st post, tr = pre ++ Deliver st :: post ->
+  In (EnvExit st) (hist ++ pre) /\ post = [] /\ r = Ok (mkw CReaped WDone).
+Proof.
+  induction tr as [|l tr IH]; intros s hist r I H pre st post E.
+  - destruct pre; discriminate.
+  - destruct pre as [|l0 pre].
+    + cbn in E. injection E as E1 E2. subst l tr. cbn [wrun] in H.
+      destruct (wstep s (Deliver st)) as [r1|] eqn:S; [|discriminate].
+      destruct (wstep_deliver _ _ _ _ I S) as [Hin ->].
+      apply wrun_stuck in H; [|apply wdone_stuck]. destruct H as [-> ->].
+      rewrite app_nil_r. auto.
+    + cbn in E. injection E as E1 E2. subst l0 tr. cbn [wrun] in H.
+      destruct (wstep s l) as [[s1|c]|] eqn:S; try discriminate.
+      * replace (hist ++ l :: pre) with ((hist ++ [l]) ++ pre)
+          by (rewrite <- app_assoc; reflexivity).
+        eapply IH; eauto. eapply wstep_inv; eauto.
+      * destruct pre; discriminate.
+Qed.
+
+Lemma wrun_deliver_count : forall tr s hist r,
+  winv hist s -> wrun s tr = Some r -> length (filter is_deliver tr) <= 1.
+Proof.
+  induction tr as [|l tr IH]; intros s hist r I H; [cbn; lia|].
+  destruct (is_deliver l) eqn:D.
+  - destruct l; try discriminate.
+    destruct (wrun_deliver _ _ _ _ I H [] st tr eq_refl) as (_ & -> & _). cbn. lia.
+  - cbn [filter]. rewrite D. cbn [wrun] in H.
+    destruct (wstep s l) as [[s1|c]|] eqn:S; try discriminate.
+    + apply (IH s1 (hist ++ [l]) r); auto. eapply wstep_inv; eauto.
+    + destruct tr; [cbn; lia|discriminate].
+Qed.
+
+Lemma wstep_exit_facts : forall s l s',
+  wstep s l = Some (Ok s') ->
+  (is_exit l = true -> wchild s = CRunning /\ wchild s' <> CRunning) /\
+  (wchild s <> CRunning -> wchild s' <> CRunning).
+Proof.
+  intros [c w] l s' H. cbn [wchild wwait] in *.
+  destruct l as [st|m| | |st|e|st|e| | ]; destruct c as [|zs|]; destruct w as [| | | | |gs|fe|];
+    try destruct m; cbn in H; wcase H; injection H as <-; cbn [wchild is_exit];
+    split; intros; try discriminate; try split; try congruence.
+Qed.
+
+Lemma wrun_exit_count : forall tr s r,
+  wrun s tr = Some r ->
+  length (filter is_exit tr) <= (match wchild s with CRunning => 1 | _ => 0 end).
+Proof.
+  induction tr as [|l tr IH]; intros s r H; [cbn; lia|].
+  cbn [wrun] in H. destruct (wstep s l) as [[s1|c]|] eqn:S; try discriminate.
+  - destruct (wstep_exit_facts _ _ _ S) as [F1 F2].
+    specialize (IH _ _ H). cbn [filter].
+    destruct (is_exit l) eqn:X.
+    + destruct F1 as [G1 G2]; auto. rewrite G1. cbn [length].
+      destruct (wchild s1); [congruence|lia|lia].
+    + destruct (wchild s) eqn:C.
+      * destruct (wchild s1); lia.
+      * destruct (wchild s1) eqn:C1; try lia. exfalso. apply F2; congruence.
+      * destruct (wchild s1) eqn:C1; try lia. exfalso. apply F2; congruence.
+  - destruct tr; [|discriminate]. cbn [filter].
+    destruct l; cbn [is_exit length]; try lia.
+    destruct s as [c0 w0]; destruct c0, w0; discriminate.
+Qed.
+
+Lemma wrun_panic_only_by_fault : forall tr s c,
+  wrun s tr = Some (Panic c) -> In EnvJobCancelled tr \/ In EnvTakeFails tr.
+Proof.
+  induction tr as [|l tr IH]; intros s c H; [discriminate|].
+  cbn [wrun] in H. destruct (wstep s l) as [[s1|c1]|] eqn:S; try discriminate.
+  - destruct (IH _ _ H); [left|right]; right; auto.
+  - destruct s as [c0 w0].
+    destruct l as [st|m| | |st|e|st|e| | ]; try (left; left; reflexivity);
+      try (right; left; reflexivity);
+      destruct c0, w0; try destruct m; cbn in S; wcase S.
+Qed.
+
+(* liveness: once the child has exited, a started wait finishes within four
+   steps, none of them an environment fault *)
+Lemma wait_finishes : forall s st,
+  wchild s = CZombie st -> wait_pending (wwait s) = true ->
+  wrun s (finish_wait (wwait s) st) = Some (Ok (mkw CReaped WDone)) /\
+  In (Deliver st) (finish_wait (wwait s) st) /\
+  length (finish_wait (wwait s) st) <= 4 /\
+  forallb (fun l => negb (is_env_fault l)) (finish_wait (wwait s) st) = true.
+Proof.
+  intros [c w] st C P. cbn [wchild wwait] in *. subst c.
+  destruct w; try discriminate; cbn; repeat (rewrite N.eqb_refl; cbn); repeat split; auto 10; try lia.
+Qed.
+
+Lemma reachable_pending : forall tr s st,
+  wrun winit tr = Some (Ok s) ->
+  wchild s = CZombie st -> wwait s <> WIdle -> (forall e, ~ In (OsFail e) tr) ->
+  wait_pending (wwait s) = true.
+Proof.
+  intros tr s st H C W F.
+  pose proof (wrun_inv _ _ _ _ winit_inv H) as (I1 & I2 & I3 & I4 & I5 & I6).
+  cbn [app] in *.
+  destruct (wwait s) eqn:E; try reflexivity; try congruence.
+  - destruct (I2 _ eq_refl) as [_ G]. congruence.
+  - exfalso. eapply F. apply I4. reflexivity.
+  - destruct I5 as [G|[e G]]; auto; [congruence|]. exfalso. eapply F; eauto.
+Qed.
+
+(* the statement of C20_wait_once *)
+Lemma wait_once : forall (tr : list wlabel) (r : R wstate),
+  wrun winit tr = Some r ->
+  length (filter is_deliver tr) <= 1 /\
+  length (filter is_exit tr) <= 1 /\
+  (forall pre st post, tr = pre ++ Deliver st :: post ->
+     In (EnvExit st) pre /\ post = [] /\ r = Ok (mkw CReaped WDone)) /\
+  (forall c, r = Panic c -> In EnvJobCancelled tr \/ In EnvTakeFails tr).
+Proof.
+  intros tr r H. repeat split.
+  - eapply wrun_deliver_count; eauto. apply winit_inv.
+  - apply (wrun_exit_count _ _ _ H).
+  - destruct (wrun_deliver _ _ _ _ winit_inv H _ _ _ H0) as (G & _ & _). exact G.
+  - destruct (wrun_deliver _ _ _ _ winit_inv H _ _ _ H0) as (_ & G & _). exact G.
+  - destruct (wrun_deliver _ _ _ _ winit_inv H _ _ _ H0) as (_ & _ & G). exact G.
+  - intros c ->. eapply wrun_panic_only_by_fault; eauto.
+Qed.
+
+Lemma wait_live : forall (tr : list wlabel) (s : wstate) (st : status),
+  wrun winit tr = Some (Ok s) ->
+  wchild s = CZombie st -> wwait s <> WIdle -> (forall e, ~ In (OsFail e) tr) ->
+  exists k, length k <= 4 /\ In (Deliver st) k /\
+            forallb (fun l => negb (is_env_fault l)) k = true /\
+            wrun winit (tr ++ k) = Some (Ok (mkw CReaped WDone)).
+Proof.
+  intros tr s st H C W F.
+  pose proof (reachable_pending _ _ _ H C W F) as P.
+  destruct (wait_finishes s st C P) as (R1 & R2 & R3 & R4).
+  exists (finish_wait (wwait s) st). repeat split; auto.
+  clear - H R1. revert H. generalize winit.
+  induction tr as [|l tr IH]; intros s0 H.
+  - cbn in H. injection H as ->. exact R1.
+  - cbn [app wrun] in *. destruct (wstep s0 l) as [[s1|c]|]; try discriminate.
+    + apply IH; auto.
+    + destruct tr; discriminate.
 Qed.
